@@ -9,6 +9,7 @@
 #include <cmath>
 #include <map>
 
+#include "alloc_track.hpp"
 #include "arena.hpp"
 #include "harness.hpp"
 #include "spq.hpp"
@@ -213,7 +214,19 @@ static std::vector<uint8_t> execute(const Spec& s, uint64_t place_seed, int pref
     default: {  // module entry points on shared live modules
       const uint64_t n = 1ull << s.logm;
       MODULE_TYPE mt = (s.mtype && (s.fn == M_NORM || s.fn == M_DFT_IDFT)) ? NTT120 : FFT64;
-      MODULE* mod = spq::modules().get(n, mt, 0);
+      // fresh=true: through a module created for this one call from heap memory with generated initial contents (what malloc
+      // returns depends on the history of earlier frees) and destroyed afterwards, instead of the long-lived shared module
+      MODULE* mod;
+      struct FreshGuard {
+        MODULE* m = nullptr;
+        ~FreshGuard() { if (m) delete_module_info(m); }
+      } fg;
+      if (fresh) {
+        static const int fills[4] = {0x00, 0xFF, 0x7F, 0xA5};
+        at::set_fill(fills[place_seed & 3]);
+        mod = fg.m = new_module_info(n, mt);
+        at::set_fill(-1);
+      } else mod = spq::modules().get(n, mt, 0);
       const unsigned bits = (unsigned)((40 - (int)s.logm) / 2);
       if (s.fn == M_SMALL) {
         int64_t *a = (int64_t*)P.in(n * 8), *b = (int64_t*)P.in(n * 8), *r = (int64_t*)P.out(n * 8);
@@ -294,7 +307,7 @@ std::vector<Sub> vh_subs() {
     Rng r((uint64_t)v[4]);
     std::vector<Spec> hist;
     std::vector<std::vector<uint8_t>> outs;
-    uint64_t repeats = 0, interesting = 0, fresh_checks = 0;
+    uint64_t repeats = 0, interesting = 0, fresh_checks = 0, fresh_modules = 0;
     const unsigned csr0 = _mm_getcsr() & 0xFFC0u;
     std::map<int, int> fam;
     for (uint64_t t = 0; t < len; ++t) {
@@ -320,13 +333,15 @@ std::vector<Sub> vh_subs() {
                            (unsigned long long)t, spec_str(sp).c_str(), csr0, csr);
         }
       }
-      if (sp.fn < NSIMPLE) {
+      const bool module_call = sp.fn >= M_SMALL && sp.fn <= M_DFT_IDFT;
+      if (sp.fn < NSIMPLE || (module_call && sp.logm <= 10 && r.below(3) == 0)) {
         std::vector<uint8_t> f = execute(sp, r.next(), (int)r.below(4), true);
         ++fresh_checks;
+        if (module_call) ++fresh_modules;
         if (f != o) {
           size_t off = 0;
           while (off < o.size() && off < f.size() && o[off] == f[off]) ++off;
-          return ctx.failf("call %llu of the history: %s differs from the same call through a freshly built table (first differing output byte %zu)", (unsigned long long)t,
+          return ctx.failf("call %llu of the history: %s differs from the same call through a freshly built table / module (first differing output byte %zu)", (unsigned long long)t,
                            spec_str(sp).c_str(), off);
         }
       }
@@ -355,6 +370,7 @@ std::vector<Sub> vh_subs() {
     ctx.nontrivial = interesting >= 1;
     for (auto& kv : fam) ctx.cls(std::string("fn:") + FNAMES[kv.first]);
     if (interesting) ctx.cls("repeat_after_other_params");
+    if (fresh_modules) ctx.cls("fresh-module == long-lived module (heap fill varied)");
     {
       uint64_t lo = 99, hi = 0;
       bool tiny = false;
